@@ -30,7 +30,9 @@ partial def getPy (j : Json) : Except String Py := do
   | "stream2" => pure (.stream2 (← getPy (← field j "a")) (← getPy (← field j "b")))
   | "un" => pure (.un (nm (← getStr (← field j "d"))) (← getPy (← field j "s")))
   | "bin" => pure (.bin (nm (← getStr (← field j "d"))) (← getPy (← field j "s")) (← getPy (← field j "o")))
-  | "meth" => pure (.meth (nm (← getStr (← field j "l"))) (← getPy (← field j "s")))
+  | "meth" =>
+    let g := match optField j "g" with | some (Json.bool b) => b | _ => false
+    pure (.meth g (nm (← getStr (← field j "l"))) (← getPy (← field j "s")))
   | "append" => pure (.append (← getPy (← field j "s")) (← getPy (← field j "o")))
   | _ => throw s!"C01: unknown node kind {k}"
 
